@@ -12,7 +12,7 @@ function, method (with receiver kind), package variable and constant, its numeri
 package variables it reads and its writes through parameters or the receiver (including in-place
 `sort.*`/`copy`/`append`). The entries behind the digest are in `shape_expected.txt` and in a
 comment of the generated file. -/
-def stateC09 : List (String × String) := [("globals:stats", "ErrMismatchedSamples ErrSampleSize ErrSamplesEqual ErrZeroVariance MannWhitneyExactLimit MannWhitneyTiesExactLimit StdNormal _KDEBoundaryMethod_index _KDEKernel_index _LocationHypothesis_index inf nan quantileCIApproxThreshold"), ("globals:vec", ""), ("globalwrites:stats", "MannWhitneyUTest:StdNormal.CDF"), ("globalwrites:vec", ""), ("fields:stats.Sample", "Xs:[]float64 Weights:[]float64 Sorted:bool"), ("fields:stats.sampleSorter", "xs:[]float64 weights:[]float64"), ("shape:C09", "n=80 fnv64a=a44caae784e9754b")]
+def stateC09 : List (String × String) := [("globals:stats", "ErrMismatchedSamples ErrSampleSize ErrSamplesEqual ErrZeroVariance MannWhitneyExactLimit MannWhitneyTiesExactLimit StdNormal _KDEBoundaryMethod_index _KDEKernel_index _LocationHypothesis_index inf nan quantileCIApproxThreshold"), ("globals:vec", ""), ("globalwrites:stats", "MannWhitneyUTest:StdNormal.CDF"), ("globalwrites:vec", ""), ("fields:stats.Sample", "Xs:[]float64 Weights:[]float64 Sorted:bool"), ("fields:stats.sampleSorter", "xs:[]float64 weights:[]float64"), ("shape:C09", "n=80 fnv64a=2e5dfca82d1ee7dc")]
 
 /-- the source has exactly the package-level variables, writers and struct fields the model accounts for -/
 theorem state_C09 : holdsAll stateC09 = true := by decide +kernel
